@@ -69,6 +69,11 @@ _ract_counter = [2000000]
 RACT_MODE = ['mixed']     # 'void' while a corpus is generated for a profile judged by the PEG formalism (actions must not affect matching)
 
 
+def _next_ract() -> int:
+    _ract_counter[0] += 1
+    return _ract_counter[0]
+
+
 def rule_acts(rng: random.Random, mode: str = 'mixed'):
     """One to three rule-level action classes with unique ids; void, vetoing bool, throwing."""
     if RACT_MODE[0] == 'void':
@@ -166,6 +171,9 @@ def kinds(core_only: bool = False, raisers: bool = True):
         ks += [
             ('if_apply1', 1, lambda x: P('if_apply', x, *rule_acts(r0)), 'apply'),
             ('if_apply1v', 1, lambda x: P('if_apply', x, *rule_acts(r0, 'void')), 'apply'),
+            ('if_apply_veto', 1, lambda x: P('if_apply', x, RACT(_next_ract(), True, 1)), 'apply'),                      # always returns false
+            ('if_apply_void_veto', 1, lambda x: P('if_apply', x, RACT(_next_ract()), RACT(_next_ract(), True, 2)), 'apply'),    # void, then false on some spans
+            ('if_apply_throw', 1, lambda x: P('if_apply', x, RACT(_next_ract(), False, 0, 3, True)), 'apply'),
             ('seq_apply', 1, lambda x: P('seq', x, P('apply', *rule_acts(r0))), 'apply'),
             ('seq_apply0', 1, lambda x: P('seq', x, P('apply0', *rule_acts0(r0))), 'apply'),
             ('sor_apply0', 1, lambda x: P('sor', P('seq', x, P('apply0', *rule_acts0(r0))), P('any')), 'apply'),
